@@ -271,6 +271,32 @@ with propagate_v (tops : list N) (v : bval) {struct v} : bval :=
   | BSub cs ks => BSub (zip_set cs tops) (propagate tops ks)
   end.
 
+(** how the nested `locales` vectors get their elements: `make_locale_value` starts a block with the default locale's
+    nested Locale (`locales: vec![locale]`), and every other locale pushes exactly one nested Locale into every block
+    it meets — its own (`(Subkeys, Subkeys)`) or an all-defaulted dummy (`(Default, Subkeys)`), recursively *)
+Fixpoint push_locale (c : N) (b : bkeys) {struct b} : bkeys :=
+  match b with
+  | BNil => BNil
+  | BCons k v r => BCons k (push_locale_v c v) (push_locale c r)
+  end
+with push_locale_v (c : N) (v : bval) {struct v} : bval :=
+  match v with
+  | BValue => BValue
+  | BSub cs ks => BSub (cs ++ [c]) (push_locale c ks)
+  end.
+
+(** every nested block of a locale's final values expects [n] strings *)
+Fixpoint counts_ok (n : N) (g : group) {struct g} : bool :=
+  match g with
+  | GNil => true
+  | GCons _ e r => counts_ok_e n e && counts_ok n r
+  end
+with counts_ok_e (n : N) (e : entry) {struct e} : bool :=
+  match e with
+  | EVal _ => true
+  | ESub c _ g => (c =? n) && counts_ok n g
+  end.
+
 (** ** One top locale of one namespace, as `check_locales_inner` leaves it *)
 Record unit_out := mk_out {
   o_tree : group;            (* values with their indices, nested counts *)
